@@ -17,6 +17,7 @@ struct Recipe {
     std::vector<long> chunks;     // stream: sizes; -1 = an integer value written with operator<<, -2 = c-string literal
     std::vector<int> flushAfter;  // stream: flush after chunk i?
     bool viaClone = false;        // fixed: the handler answers on a clone() of the writer it was handed
+    int te = 0;                   // stream: the handler announces a transfer coding of its own before it asks for the stream (1 gzip, 2 deflate, 3 compress)
     int moveAt = -1;              // stream: the ResponseStream object is moved (to the heap) before chunk moveAt is written (-1: never)
     // filled by the handler
     std::atomic<int> ran{0}; std::atomic<int> fulfilled{0}, rejected{0}; std::atomic<long> promiseValue{-1}; std::atomic<long> reportedSize{-1};
@@ -36,6 +37,7 @@ static void apply_headers(Http::ResponseWriter& response, const Recipe& rc) {
         else if (h.first == "Access-Control-Allow-Headers") response.headers().add<AccessControlAllowHeaders>(h.second);
     }
     for (auto& c : rc.cookies) response.cookies().add(Http::Cookie(c.first, c.second));
+    if (rc.kind == 1 && rc.te) response.headers().add<TransferEncoding>(rc.te == 1 ? Encoding::Gzip : rc.te == 2 ? Encoding::Deflate : Encoding::Compress);
 }
 struct RecipeHandler : public Http::Handler {
     HTTP_PROTOTYPE(RecipeHandler)
@@ -109,6 +111,7 @@ static void gen_recipe(Rng& r, Recipe& rc, bool allowStream) {
         int nch = r.range(0, 8);
         static const long SZ[] = {1, 15, 16, 17, 255, 256, 257, 4095, 4096, 4097, 65535, 65536, 65537};
         rc.moveAt = r.chance(1, 2) ? r.range(0, nch) : -1;
+        rc.te = r.chance(1, 5) ? r.range(1, 3) : 0;
         for (int i = 0; i < nch; i++) { int w = r.range(0, 9); long n = w <= 5 ? r.pick(SZ) : w == 6 ? -1 : w == 7 ? -2 : w == 8 ? 0 : r.range(1, 3000); rc.chunks.push_back(n); rc.flushAfter.push_back(r.chance(1, 2)); }
         // the next lengths of the size line: six hex digits from 1 MiB on, seven from 16 MiB on (one such chunk per recipe at most)
         if (nch > 0 && r.chance(1, 10)) { static const long BIG[] = {1048575, 1048576, 1048577}; rc.chunks[(size_t)r.below((uint64_t)nch)] = r.pick(BIG); }
@@ -117,6 +120,7 @@ static void gen_recipe(Rng& r, Recipe& rc, bool allowStream) {
 }
 static std::string recipe_text(const Recipe& rc) {
     std::string s = std::string(rc.kind ? "stream" : rc.viaClone ? "fixed-via-clone" : "fixed") + " code=" + std::to_string(rc.code) + " headers=" + std::to_string(rc.headers.size()) + " cookies=" + std::to_string(rc.cookies.size());
+    if (rc.kind == 1 && rc.te) s += std::string(" own-transfer-coding=") + (rc.te == 1 ? "gzip" : rc.te == 2 ? "deflate" : "compress");
     if (rc.kind == 0) s += " body=" + std::to_string(rc.bodyLen); else { s += " moveAt=" + std::to_string(rc.moveAt) + " chunks="; for (size_t i = 0; i < rc.chunks.size(); i++) s += std::to_string(rc.chunks[i]) + (rc.flushAfter[i] ? "f," : ","); }
     return s;
 }
@@ -148,7 +152,11 @@ static std::string c05_exchange(int port, const std::string& id, Recipe& rc, lv:
         if (m.header(h.first) != h.second) { detail = h.first + ": '" + m.header(h.first) + "' want '" + h.second + "'"; return "c05:" + kd + ":header-value"; }
     }
     std::map<std::string, int> seen; for (auto& h : m.headers) { std::string l; for (char ch : h.first) l += (char)tolower((unsigned char)ch); if (l != "set-cookie") seen[l]++; }
-    for (auto& kv : seen) if (kv.second > 1) { detail = kv.first; return "c05:" + kd + ":header-doubled"; }
+    for (auto& kv : seen) if (kv.second > 1 && !(kv.first == "transfer-encoding" && rc.kind == 1 && rc.te)) { detail = kv.first; return "c05:" + kd + ":header-doubled"; }
+    if (rc.kind == 1 && rc.te) {   // the coding the handler announced appears once, in front of the framework's chunked
+        std::string want = rc.te == 1 ? "gzip" : rc.te == 2 ? "deflate" : "compress";
+        if (std::count(m.codings.begin(), m.codings.end(), want) != 1) { detail = "Transfer-Encoding: " + m.header("Transfer-Encoding"); return "c05:stream:own-transfer-coding-" + std::string(std::count(m.codings.begin(), m.codings.end(), want) ? "doubled" : "missing"); }
+    }
     std::multiset<std::string> gotC, wantC;
     for (auto& h : m.headers) if (strcasecmp(h.first.c_str(), "Set-Cookie") == 0) gotC.insert(h.second);
     for (auto& ck : rc.cookies) wantC.insert(ck.first + "=" + ck.second);
@@ -196,7 +204,7 @@ static void run_c05(long cases) {
         std::string shape = std::string(rc.kind ? "S" : "F") + std::to_string(rc.headers.size()) + std::to_string(rc.cookies.size());
         if (rc.kind == 0) { size_t b = rc.bodyLen, lg = 0; while (b >>= 1) lg++; shape += "b" + std::to_string(lg); } else { for (long c : rc.chunks) shape += c < 0 ? 'v' : c == 0 ? '0' : c < 16 ? 'a' : c < 256 ? 'b' : c < 4096 ? 'c' : c < 65536 ? 'd' : c >= 16777216 ? 'g' : c >= 1048576 ? 'f' : 'e'; }
         g_distinct.add(shape);
-        count(rc.kind ? "stream_responses" : "fixed_responses");
+        count(rc.kind ? "stream_responses" : "fixed_responses"); if (rc.kind && rc.te) count("stream_responses_with_a_transfer_coding_of_the_handler");
         if (g_samples_left > 0 && (n % 37) == 3) { g_samples_left--; sample(wt); }
         // response size limit: differential on the configuration, for a sample of fixed recipes
         if (key.empty() && rc.kind == 0 && wire > 0 && (n % 6) == 0) {
